@@ -3,6 +3,7 @@ package main
 import (
 	"fmt"
 	"go/token"
+	"go/types"
 	"strings"
 
 	"golang.org/x/tools/go/ssa"
@@ -598,6 +599,79 @@ func checkBigNodeThreshold(p *Program, r *Report) {
 					r.Check(okDom, fmt.Sprintf("257-bit size selected in %s #%d", shortFn(g), n), p.Pos(pred.Instrs[0].Pos()), "dominated by child count > K, K >= 4", why+": nodes with two or three children can be made 257-bit and cost 33 bytes each, beyond 8 bytes per key")
 				}
 			}
+		}
+	}
+	// the size may be chosen as a record ("node shape") taken from package-level shapes: a return of a
+	// record whose constant fields include 257 is the selection site
+	for _, g := range dedupFuncs(scan) {
+		for _, ret := range returnsOf(g) {
+			if len(ret.Results) != 1 {
+				continue
+			}
+			if _, isStruct := ret.Results[0].Type().Underlying().(*types.Struct); !isStruct {
+				continue
+			}
+			ts, ok := structConstTuples(p, ret.Results[0], 0)
+			if !ok {
+				continue
+			}
+			big := false
+			for _, t := range ts {
+				for _, v := range t {
+					if v == 257 {
+						big = true
+					}
+				}
+			}
+			if !big {
+				continue
+			}
+			n++
+			pred := ret.Block()
+			okDom := false
+			why := "the 257-bit shape is selected in a block that is not dominated by a test of the node's child count"
+			for _, blk := range g.Blocks {
+				iff, ok := lastInstr(blk).(*ssa.If)
+				if !ok {
+					continue
+				}
+				op, cx, cy, _, ok := cmpOf(iff.Cond)
+				if !ok {
+					continue
+				}
+				var x ssa.Value
+				var kk, min int64
+				switch op {
+				case token.GTR:
+					if c, ok := constInt(cy); ok {
+						x, kk, min = cx, c, 4
+					}
+				case token.GEQ:
+					if c, ok := constInt(cy); ok {
+						x, kk, min = cx, c, 5
+					}
+				case token.LSS:
+					if c, ok := constInt(cx); ok {
+						x, kk, min = cy, c, 4
+					}
+				case token.LEQ:
+					if c, ok := constInt(cx); ok {
+						x, kk, min = cy, c, 5
+					}
+				}
+				if x == nil || !fromPrefixCounts(x, 0) {
+					continue
+				}
+				s0 := blk.Succs[0]
+				if len(s0.Preds) == 1 && (s0 == pred || s0.Dominates(pred)) {
+					if kk >= min {
+						okDom = true
+					} else {
+						why = fmt.Sprintf("the child-count threshold %d is too low for a 33-byte node at 8 bytes per key", kk)
+					}
+				}
+			}
+			r.Check(okDom, fmt.Sprintf("257-bit size selected in %s #%d", shortFn(g), n), p.Pos(ret.Pos()), "dominated by child count > K, K >= 4", why+": nodes with two or three children can be made 257-bit and cost 33 bytes each, beyond 8 bytes per key")
 		}
 	}
 	if n == 0 {
